@@ -143,6 +143,10 @@ Fixpoint compile_rec (fuel : nat) (o : copts) (p : prog) (sub : option routine) 
                        match racc with
                        | CErr e => CErr e
                        | COk a =>
+                           (* Python compiles such a routine again and overwrites the dictionary entry with an
+                              identical result; the model keeps the first one *)
+                           if existsb (fun c => match cr_key c with Some k => N.eqb k s | None => false end) a then COk a
+                           else
                            match find_sub p s with
                            | None => CErr (Unsupported "unknown subroutine id")
                            | Some r => compile_rec f o p (Some r) (decl_body o r) a
@@ -348,7 +352,11 @@ Definition spill (version : N) (p : prog) (frs : list flat_routine) (locals : li
                            match filter (fun c => mem_N c re) (comp_subs stmt) with
                            | callee :: _ =>
                                let numArgs := match find_sub p callee with Some cr => N.to_nat (r_nargs cr) | None => O end in
-                               spill_one version (negb (ty_eqb (r_ret r) TNone)) slots numArgs stmt
+                               (* whether a value is left on the stack is decided by the CALLED subroutine *)
+                               let callee_returns := match find_sub p callee with
+                                                     | Some cr => negb (ty_eqb (r_ret cr) TNone)
+                                                     | None => false end in
+                               spill_one version callee_returns slots numArgs stmt
                            | [] => [stmt]
                            end) (fr_ops fr))
                end
@@ -459,7 +467,32 @@ Definition compile_components (o : copts) (modes : opc -> bool * bool) (p : prog
       end
   end.
 
-(* the slot assignment the pipeline computes (uid -> scratch number), for the source semantics *)
+(* the slot assignment the pipeline computes (uid -> scratch number) and the routine-local slot numbers,
+   for the source semantics *)
+Definition model_assignment_locals (o : copts) (p : prog) : cres (list (N * N) * list (option N * list N)) :=
+  match compile_rec (S (List.length (p_subs p))) o p None (p_main p) [] with
+  | CErr e => CErr e
+  | COk crs =>
+      let ocrs :=
+        if o_opt_slots o then
+          let skip := skip_slots p crs in
+          fold_right (fun c acc =>
+                        match acc, optimize_routine (cr_graph c) (cr_start c) skip with
+                        | COk l, Some g => COk (mkCR (cr_sub c) g (cr_start c) (cr_end c) :: l)
+                        | COk _, None => CErr CrashRecursion
+                        | CErr e, _ => CErr e
+                        end) (COk []) crs
+        else COk crs in
+      match ocrs with
+      | CErr e => CErr e
+      | COk crs1 =>
+          match assign_slots p crs1 with
+          | CErr e => CErr e
+          | COk (_, locals, asg) => COk (asg, locals)
+          end
+      end
+  end.
+
 Definition model_assignment (o : copts) (p : prog) : cres (list (N * N)) :=
   match compile_rec (S (List.length (p_subs p))) o p None (p_main p) [] with
   | CErr e => CErr e
@@ -482,6 +515,29 @@ Definition model_assignment (o : copts) (p : prog) : cres (list (N * N)) :=
           | COk (_, _, asg) => COk asg
           end
       end
+  end.
+
+(* class predicate of the known finding "optimizer orphan store": slots of which the optimiser deleted more
+   stores than loads (every deleted store that has no cancelling load leaves its value on the stack) *)
+Definition count_slot_ops (c : croutine) (op : opc) (s : N) : nat :=
+  List.length (filter (fun i => is_op i op && mem_N s (instr_slots i))
+                      (flat_map (fun b => get_ops (cr_graph c) b) (iterate (cr_graph c) (cr_start c)))).
+
+Definition opt_orphans (o : copts) (p : prog) : list N :=
+  match compile_rec (S (List.length (p_subs p))) o p None (p_main p) [] with
+  | CErr _ => []
+  | COk crs =>
+      let skip := skip_slots p crs in
+      flat_map (fun c =>
+                  match optimize_routine (cr_graph c) (cr_start c) skip with
+                  | None => []
+                  | Some g =>
+                      let c' := mkCR (cr_sub c) g (cr_start c) (cr_end c) in
+                      filter (fun s =>
+                                Nat.ltb (count_slot_ops c O_load s - count_slot_ops c' O_load s)
+                                        (count_slot_ops c O_store s - count_slot_ops c' O_store s))
+                             (routine_slots c)
+                  end) crs
   end.
 
 Definition compile_model (o : copts) (modes : opc -> bool * bool) (p : prog) : cres (list string) :=
